@@ -44,7 +44,8 @@ pub fn drive(t: &mut Tracer, r: &mut Rng, n: usize) {
                         // the same input as a property bag (offset of whole minutes)
                         t.call("Zoned.fromPartial", json!({"zone": zone, "w": w, "offk": k, "offmin": off / 60, "dis": *r.pick(&DIS), "offopt": *r.pick(&OFFOPT)}));
                     } else {
-                        t.call("Zoned.fromStr", json!({"zone": zone, "w": w, "offk": k, "off": off, "dis": *r.pick(&DIS), "offopt": *r.pick(&OFFOPT)}));
+                        if r.chance(1, 4) { t.call("Zoned.relTo", json!({"zone": zone, "w": w, "offk": k, "off": off})); }
+                        else { t.call("Zoned.fromStr", json!({"zone": zone, "w": w, "offk": k, "off": off, "dis": *r.pick(&DIS), "offopt": *r.pick(&OFFOPT)})); }
                     } }
             }
         }
